@@ -47,8 +47,9 @@ package eval
 //@         (pe.sortedAdminNetpols[k].Name in pe.adminNetpolsMap && pe.adminNetpolsMap[pe.sortedAdminNetpols[k].Name]))
 
 //@ func (*PolicyEngine).insertAdminNetworkPolicy
-//@   requires pe != nil && allocated(pe) && anp != nil && allocated(anp) && anpsNonNil(pe) && anpNames(pe)
-//@   modifies pe.sortedAdminNetpols, pe.adminNetpolsMap[*]
+//@   requires pe != nil && allocated(pe) && anp != nil && allocated(anp) && anpsNonNil(pe) && anpNames(pe) && pe.cache != nil
+//@   modifies pe.sortedAdminNetpols, pe.adminNetpolsMap[*], pe.cache.ownerToPods, lruHas { r | r == pe.cache.cache }
+//@   ensures [C15] cleared: res == nil ==> (pe.cache.cache != nil ==> (forall k string :: {lruHas(pe.cache.cache)[k]} !lruHas(pe.cache.cache)[k]))
 //@   ensures [C19] dup: (!pe.exposureAnalysisFlag && old(anp.Name in pe.adminNetpolsMap && pe.adminNetpolsMap[anp.Name])) ==> res != nil
 //@   ensures [C19,C15] rejected: res != nil ==> (pe.sortedAdminNetpols == old(pe.sortedAdminNetpols) && dom(pe.adminNetpolsMap) == old(dom(pe.adminNetpolsMap)))
 //@   ensures [C02,C15] appended: res == nil ==> (len(pe.sortedAdminNetpols) == old(len(pe.sortedAdminNetpols)) + 1
@@ -57,8 +58,9 @@ package eval
 //@   ensures [C19,C15] inv: anpsNonNil(pe) && anpNames(pe)
 
 //@ func (*PolicyEngine).deleteAdminNetworkPolicy
-//@   requires pe != nil && allocated(pe) && anp != nil && anpsNonNil(pe) && pe.adminNetpolsMap != nil
-//@   modifies pe.sortedAdminNetpols, pe.adminNetpolsMap[*]
+//@   requires pe != nil && allocated(pe) && anp != nil && anpsNonNil(pe) && pe.adminNetpolsMap != nil && pe.cache != nil
+//@   modifies pe.sortedAdminNetpols, pe.adminNetpolsMap[*], pe.cache.ownerToPods, lruHas { r | r == pe.cache.cache }
+//@   ensures [C15] cleared: (pe.cache.cache != nil ==> (forall k string :: {lruHas(pe.cache.cache)[k]} !lruHas(pe.cache.cache)[k]))
 //@   ensures [C15] total: res == nil && anpsNonNil(pe)
 //@   ensures [C02,C15] absent: (forall k int :: {old(pe.sortedAdminNetpols[k])} (0 <= k && k < old(len(pe.sortedAdminNetpols))) ==> old(pe.sortedAdminNetpols[k]) != anp)
 //@         ==> pe.sortedAdminNetpols == old(pe.sortedAdminNetpols)
@@ -181,23 +183,26 @@ package eval
 // ---------------------------------------------------------------------------------------------
 
 //@ func (*PolicyEngine).insertBaselineAdminNetworkPolicy
-//@   requires pe != nil && banp != nil
-//@   modifies pe.baselineAdminNetpol
+//@   requires pe != nil && banp != nil && pe.cache != nil
+//@   modifies pe.baselineAdminNetpol, pe.cache.ownerToPods, lruHas { r | r == pe.cache.cache }
+//@   ensures [C15] cleared: res == nil ==> (pe.cache.cache != nil ==> (forall k string :: {lruHas(pe.cache.cache)[k]} !lruHas(pe.cache.cache)[k]))
 //@   ensures [C19] second: old(pe.baselineAdminNetpol) != nil ==> res != nil
 //@   ensures [C19] name: banp.Name != "default" ==> res != nil
 //@   ensures [C19,C15] rejected: res != nil ==> pe.baselineAdminNetpol == old(pe.baselineAdminNetpol)
 //@   ensures [C15] stored: res == nil ==> pe.baselineAdminNetpol == banp
 
 //@ func (*PolicyEngine).deleteBaselineAdminNetworkPolicy
-//@   requires pe != nil && banp != nil
-//@   modifies pe.baselineAdminNetpol
+//@   requires pe != nil && banp != nil && pe.cache != nil
+//@   modifies pe.baselineAdminNetpol, pe.cache.ownerToPods, lruHas { r | r == pe.cache.cache }
+//@   ensures [C15] cleared: (pe.cache.cache != nil ==> (forall k string :: {lruHas(pe.cache.cache)[k]} !lruHas(pe.cache.cache)[k]))
 //@   ensures [C15,C12] total: res == nil
 //@   ensures [C15] absent: old(pe.baselineAdminNetpol) == nil ==> pe.baselineAdminNetpol == nil
 //@   ensures [C15] other: (old(pe.baselineAdminNetpol) != nil && old(pe.baselineAdminNetpol.Name) != banp.Name) ==> pe.baselineAdminNetpol == old(pe.baselineAdminNetpol)
 
 //@ func (*PolicyEngine).deleteNamespace
-//@   requires pe != nil && ns != nil
-//@   modifies pe.namespacesMap[*]
+//@   requires pe != nil && ns != nil && pe.cache != nil
+//@   modifies pe.namespacesMap[*], pe.cache.ownerToPods, lruHas { r | r == pe.cache.cache }
+//@   ensures [C15] cleared: (pe.cache.cache != nil ==> (forall k string :: {lruHas(pe.cache.cache)[k]} !lruHas(pe.cache.cache)[k]))
 //@   ensures [C15,C12] total: res == nil
 //@   ensures [C15] removed: pe.namespacesMap != nil ==> (forall k string :: {k in pe.namespacesMap} (k in pe.namespacesMap) == (old(k in pe.namespacesMap) && k != ns.Name))
 
@@ -225,3 +230,9 @@ package eval
 //@   ensures [C19] dup: (old(np.Namespace) != "" && old(np.Namespace in pe.netpolsMap) && old(np.Name in pe.netpolsMap[np.Namespace])) ==> res != nil
 //@   ensures [C19] dupdefault: (old(np.Namespace) == "" && old("default" in pe.netpolsMap) && old(np.Name in pe.netpolsMap["default"])) ==> res != nil
 //@   ensures [C15] cleared: (res == nil && pe.cache.cache != nil) ==> (forall k string :: {lruHas(pe.cache.cache)[k]} !lruHas(pe.cache.cache)[k])
+
+//@ func (*PolicyEngine).insertNamespace
+//@   requires pe != nil && ns != nil && pe.cache != nil && pe.namespacesMap != nil
+//@   modifies *
+//@   modifies PolicyEngine.cache { r | false }, evalCache.cache { r | false }
+//@   ensures [C15] cleared: res == nil ==> (pe.cache.cache != nil ==> (forall k string :: {lruHas(pe.cache.cache)[k]} !lruHas(pe.cache.cache)[k]))
